@@ -279,7 +279,7 @@ def window_filler(rng, n):
     return (base * (n // 97 + 1))[:n]
 
 
-def stretched_events(seq, where, n_total, rng, tid=6, t0=5000):
+def stretched_events(seq, where, n_total, rng, tid=6, t0=5000, wide=False):
     """The abstract window `seq` (START first, END last) as events, stretched to exactly n_total records by filler
     records inserted before position `where`.  The filler is 97 distinct record objects repeated by reference (a
     window of a million records then costs a list of references, not a million objects); they carry the tick of the
@@ -287,9 +287,30 @@ def stretched_events(seq, where, n_total, rng, tid=6, t0=5000):
     base = materialize([(tid, a) for a in seq], t0=t0, step=7)
     k = max(0, n_total - len(base))
     tick = base[where - 1].timestamp if where else t0
-    objs = [ev.mk(tick, code, qual, payload, tid) for code, qual, payload in window_filler(rng, 97)]
-    filler = (objs * (k // 97 + 1))[:k]
+    if wide:
+        # nesting WIDTH instead of length: k STARTs of k distinct ids that never end (application signposts, ids no
+        # table lists), i.e. k windows open at once on the thread while the call is in flight
+        table = ev.bundled_codes()
+        ids = (i for i in range(0x21000000, 0x21000000 + 8 * k + 64, 4) if i not in table)
+        filler = [ev.mk(tick, next(ids), START, (j, 0, 0, 0), tid) for j in range(k)]
+    else:
+        objs = [ev.mk(tick, code, qual, payload, tid) for code, qual, payload in window_filler(rng, 97)]
+        filler = (objs * (k // 97 + 1))[:k]
     return base[:where] + filler + base[where:], {id(e) for e in base}
+
+
+NAMING = ('MACH_BLOCK', 'MACH_DISPATCH', 'MACH_MKRUNNABLE', 'MACH_SCHED', 'MACH_WAIT', 'PERF_THD_CSwitch', 'PERF_THD_Data',
+          'TRACE_DATA_EXEC', 'TRACE_DATA_NEWTHREAD', 'TRACE_DATA_THREAD_TERMINATE', 'TRACE_DATA_THREAD_TERMINATE_PID')
+
+
+def naming_words(rng, name, tid, pid, k=0):
+    """In-domain words of a single-record decoder whose free words name a given thread and process."""
+    w = domain.gen_single(rng, name)
+    spec = domain.TABLE.get(name, {})
+    for idx in range(4):
+        if ('S', idx) not in spec and ('E', idx) not in spec:
+            w[idx] = (tid, pid, tid, pid, pid, tid, pid, tid)[idx + 4 * k]
+    return w
 
 
 def census_nested():
